@@ -16,7 +16,7 @@ package upstream
 //@   immutable u, t
 
 //@ func (u *udpWithFallback) ExchangeContext [C17]
-//@   requires u != nil && u.u != nil && u.t != nil
+//@   requires u != nil && u.u != nil && u.t != nil && ctx != nil && len(q) >= 12
 //@   modifies *
 //@   ensures calls(pipelineExchange) == 1 && arg(pipelineExchange, 0, 0) == u.u && arg(pipelineExchange, 0, 2) == q
 //@   ensures ret(pipelineExchange, 0, 1) != nil ==> result_0 == nil && result_1 == ret(pipelineExchange, 0, 1) && calls(reuseExchange) == 0
